@@ -2573,7 +2573,9 @@ fn run_line(out: &mut Out, l: &str, count: bool) {
 /// one generated case: inputs are generated one at a time against the live session
 fn generate_case(rng: &mut Rng, out: &mut Out) {
     let mut runner = Runner::new();
-    runner.drop_undefined = true;
+    // (was `true` while function values were bound late — known finding C09-fnvalue-late-binding, since repaired in
+    // numbat: inputs that are ill-typed only under the late-binding reading are given to the implementation again)
+    runner.drop_undefined = false;
     let mut env = GenEnv::default();
     let n_inputs = 1 + rng.below(3);
     let mut offered: Vec<Input> = Vec::new();
